@@ -192,3 +192,13 @@ func (o *Oblig) Pos() token.Pos {
 	}
 	return o.Fn.Pos()
 }
+
+// AV is exported for hooks that receive call results.
+// TupleInt returns the linear form of element i of a tuple result.
+func TupleInt(av AV, i int) (Lin, bool) {
+	t, ok := av.(ATuple)
+	if !ok || i >= len(t.elems) {
+		return Lin{}, false
+	}
+	return asLin(t.elems[i])
+}
